@@ -54,6 +54,10 @@ Schema(c) ==
                                     Fld("d8", TNull(TList(TRef("Rl"), Unset, 2))),
                                     Fld("d9", TNull(TMap(TRef("Rl"))))
                                  >>, <<>>, FALSE)) @@
+    \* M extends B and omits nothing itself; N extends M and omits a member for c1 only: the members B omits for c1
+    \* and c2 reach N through a parent that has no omitted member of its own
+    ("M"  :> DStruct("nsa", "B", << Fld("m1", TNull(I32)) >>, <<>>, FALSE)) @@
+    ("N"  :> DStruct("nsa", "M", << Field("n1", TNull(I32), NoDefault, "c1", "") >>, <<>>, FALSE)) @@
     ("P"  :> DStruct("nsa", "", << Fld("p1", I32), Field("p2", TNull(Str), NoDefault, "c1", red) >>,
                      <<Sub("q", "Q")>>, TRUE)) @@
     ("Q"  :> DStruct("nsa", "P", << Field("q1", Str, NoDefault, "", red2),
@@ -75,7 +79,7 @@ Schema(c) ==
                        TagO("wz", TVoid, "c2") >>))
 
 Patched == [B |-> {"bp"}]
-Roots == {TRef("B"), TRef("D"), TRef("W"), TRef("P"),
+Roots == {TRef("B"), TRef("D"), TRef("W"), TRef("P"), TRef("N"),
           TList(TRef("W"), Unset, 2), TMap(TRef("D")), TNull(TRef("Ra")), TRef("Rl")}
 RootSeq == SetToSeq(Roots)
 RootIdx(r) == CHOOSE i \in DOMAIN RootSeq : RootSeq[i] = r
